@@ -675,6 +675,92 @@ def _fixture_funcs(name):
 
 
 # ---------------------------------------------------------------------------
+# F8 one formula for every batch shape
+# ---------------------------------------------------------------------------
+
+SHAPE_PROBES = {'np.ndim', 'np.isscalar', 'np.shape', 'np.size', 'len', 'np.iterable'}
+SHAPE_ATTRS = {'ndim', 'shape', 'size'}
+
+
+def shape_dependent_branches(func):
+    """Branch tests of `func` that probe the dimensionality / scalar-ness of a parameter (or of
+    an array made from one) and whose two branches both go on to compute a result: the value
+    returned for one point can then differ from the row of a batch.  Tests one of whose
+    branches rejects the input (raise) are validation and are not reported."""
+    from .cfg import cfg_of
+    cfg = cfg_of(func)
+    if not any(isinstance(r, ast.Return) and r.value is not None and not (
+            isinstance(r.value, ast.Constant) and r.value.value is None)
+            for r in walk_no_nested(func.node)):
+        return []       # no result: nothing a shape test could select between
+    data = {p for p in func.params if p != func.self_name}
+    for st in walk_no_nested(func.node):      # aliases: x = np.asarray(param)
+        if isinstance(st, ast.Assign) and len(st.targets) == 1 and \
+                isinstance(st.targets[0], ast.Name) and isinstance(st.value, ast.Call) and \
+                dotted(st.value.func) in ('np.asarray', 'np.array', 'np.atleast_1d',
+                                          'np.atleast_2d', 'np.copy') and st.value.args and \
+                isinstance(st.value.args[0], ast.Name) and st.value.args[0].id in data:
+            data.add(st.targets[0].id)
+    out = []
+    for t in cfg.nodes:
+        if t.kind != 'test' or t.expr is None:
+            continue
+        probe = None
+        for x in ast.walk(t.expr):
+            if isinstance(x, ast.Call) and dotted(x.func) in SHAPE_PROBES and x.args and \
+                    isinstance(x.args[0], ast.Name) and x.args[0].id in data:
+                probe = x
+            if isinstance(x, ast.Attribute) and x.attr in SHAPE_ATTRS and \
+                    isinstance(x.value, ast.Name) and x.value.id in data:
+                probe = x
+            if isinstance(x, ast.Call) and dotted(x.func) == 'isinstance' and len(x.args) == 2 \
+                    and isinstance(x.args[0], ast.Name) and x.args[0].id in data and any(
+                        (dotted(y) or '') in ('float', 'int', 'np.ndarray', 'numbers.Number',
+                                              'np.floating', 'list', 'tuple')
+                        for y in ast.walk(x.args[1])):
+                probe = x
+        if probe is None:
+            continue
+        # validation: some branch of the test cannot reach the normal exit
+        succ = [s for s, lab in t.succ if lab in (True, False)]
+        if len(succ) < 2:
+            continue
+        if any(cfg.exit.id not in (cfg.reach(s_) | {s_}) for s_ in succ):
+            continue
+        out.append((t, probe))
+    return out
+
+
+def rule_F8(ctx, rid='F8'):
+    ctx.rule(rid, 'one formula for every batch shape: on the prior-transform path (classes of '
+             'nautilus.prior and the phase shift) no branch that probes the dimensionality or '
+             'scalar-ness of the points selects between two computations -- a scalar and a '
+             'vectorised likelihood must see bit-identical coordinates')
+    prog = ctx.program
+    scope = [f for f in prog.functions.values()
+             if f.module.modname.endswith(('.prior', '.periodic')) and f.cls is not None]
+    ctx.require(len(scope) >= 6, 'only %d functions on the transform path (floor 6)' % len(scope))
+    for f in sorted(scope, key=lambda x: x.qualname):
+        hits = shape_dependent_branches(f)
+        ctx.ob(rid, '%s:shape-independent' % f.qualname, not hits,
+               f.where(hits[0][0].ast) if hits else f.where(),
+               'no branch on the shape of the input selects the arithmetic' if not hits else
+               'the branch on `%s` makes the result for a single point come from a different '
+               'computation than the row of a batch: scalar and vectorised evaluation of the '
+               'same point can differ in the last bits' % unparse(hits[0][1])[:40])
+    bad, good = _fixture_funcs('F8_bad.py'), _fixture_funcs('F8_good.py')
+    for fn in bad + good:
+        fn.self_name = 'self'
+    nb = [h for fn in bad for h in shape_dependent_branches(fn)]
+    ng = [h for fn in good for h in shape_dependent_branches(fn)]
+    if len(nb) < 2 or ng:
+        raise AnalysisError('F8 fixture self-check failed (bad fired %d, good fired %d)'
+                            % (len(nb), len(ng)))
+    ctx.ob(rid, 'fixture:F8', True, 'fixtures/F8_bad.py', 'rule fires on the bad fixture (%d '
+           'branches) and is silent on the good one' % len(nb))
+
+
+# ---------------------------------------------------------------------------
 # F5 ordered map
 # ---------------------------------------------------------------------------
 
@@ -782,7 +868,8 @@ def rule_F5(ctx, rid='F5'):
 # F7 callback isolation
 # ---------------------------------------------------------------------------
 
-COPY_CALLS = {'np.copy', 'np.array', 'np.concatenate', 'np.repeat', 'np.vstack', 'np.append'}
+COPY_CALLS = {'np.copy', 'np.array', 'np.concatenate', 'np.repeat', 'np.vstack', 'np.append',
+              'np.take'}
 
 
 def _is_fresh(func, cfg, nid, e, depth=0):
